@@ -156,6 +156,9 @@ func (w *world) checkPersist(where string) {
 	if w.stopped || w.stopping {
 		return
 	}
+	// counters as they were before the snapshot was taken: returning from the
+	// snapshot is a scheduling point, later requests must not be held against it
+	wakesBefore, genBefore := w.okCount[kWake], w.gen
 	st, data, err := w.m.VerifSnapshot()
 	if w.stopped || w.stopping {
 		// taking the snapshot is a scheduling point: Stop may have begun
@@ -163,16 +166,16 @@ func (w *world) checkPersist(where string) {
 		// property; found by the thorough tier)
 		return
 	}
-	w.comparePersisted(where, st, data, err, false)
+	w.comparePersisted(where, st, data, err, false, wakesBefore > 0 || genBefore > 0)
 }
 
-func (w *world) comparePersisted(where string, st sleep.State, data []byte, err error, relaxed bool) {
+func (w *world) comparePersisted(where string, st sleep.State, data []byte, err error, relaxed bool, savedBefore bool) {
 	if err != nil {
 		if !os.IsNotExist(err) {
 			simrt.Failf("persisted-state-unreadable", "state file unreadable", "%v at %s", err, where)
 		}
 		// never saved: only acceptable while the agent has always been awake
-		if st != sleep.StateAwake || w.okCount[kWake] > 0 || w.gen > 0 {
+		if st != sleep.StateAwake || savedBefore {
 			simrt.Failf("persisted-state-mismatch", "mem="+stName(st)+" disk=<missing>", "at %s", where)
 		}
 		return
@@ -308,6 +311,7 @@ func (w *world) doRequest(kind int, who string) {
 	w.ops = append(w.ops, op)
 	prevCommitted := w.awakeCommitted
 	startsBefore := w.sleepStart
+	sleepsRunningAtInvoke := w.inFlight[kSleep]
 	if kind == kSleep {
 		w.sleepStart++
 		startsBefore = w.sleepStart
@@ -352,7 +356,10 @@ func (w *world) doRequest(kind int, who string) {
 			simrt.Failf("unexpected-error", "Wake refused with an undocumented error", "%v", err)
 		}
 	}
-	if kind == kWake && op.res == resOK && w.inFlight[kSleep] == 0 {
+	if kind == kWake && op.res == resOK && w.inFlight[kSleep] == 0 && w.sleepStart == startsBefore && sleepsRunningAtInvoke == 0 {
+		// (a sleep request that overlapped this wake call at any time - issued
+		// before or during it - may have taken effect after the wake, even if it
+		// has already returned)
 		w.awakeCommitted = true
 		simrt.Probe("wake_completed")
 	}
@@ -567,7 +574,7 @@ func (w *world) phase(nReq, maxOps int, earlyStopAllowed bool, prevDisk *sleep.S
 	final := w.sample("Stop.post")
 	w.stopped = true
 	data, err := os.ReadFile(w.dir + "/sleep_state.json")
-	w.comparePersisted("Stop.post", final, data, err, true)
+	w.comparePersisted("Stop.post", final, data, err, true, w.okCount[kWake] > 0 || w.gen > 0)
 	w.checkLinearizable(initialAwake)
 	var ps sleep.PersistedState
 	if err == nil {
